@@ -203,7 +203,7 @@ func main() {
 		go func() {
 			defer wg.Done()
 			defer func() { <-sem }()
-			smokeCh <- smokeRes{r.Key, govc.Smoke(r, work, timeout)}
+			smokeCh <- smokeRes{r.Key, govc.Smoke(r, work, 3)}
 		}()
 	}
 	wg.Wait()
